@@ -33,6 +33,8 @@ type fcase struct {
 	Version     string   `json:"version"`
 	Blinded     bool     `json:"blinded"`
 	OtherSlot   bool     `json:"proposal_for_other_slot,omitempty"`
+	OtherIndex  bool     `json:"proposal_built_for_another_proposer_index,omitempty"`
+	AuctionSlow bool     `json:"auction_answers_after_2300ms,omitempty"`
 	Graffiti    string   `json:"graffiti"`                   // ok | error | absent
 	Auction     string   `json:"auction"`                    // none | error | no-winner | winner
 	Relays      []string `json:"relay_unblinding,omitempty"` // block | 400 | transient | error | slow | hang
@@ -98,6 +100,9 @@ func (w *world) SyncCommitteeAccountsForEpochByIndex(context.Context, phase0.Epo
 }
 
 func (w *world) SignRANDAOReveal(ctx context.Context, account e2wtypes.Account, slot phase0.Slot) (phase0.BLSSignature, error) {
+	if ctx.Err() != nil {
+		return phase0.BLSSignature{}, ctx.Err()
+	}
 	w.mu.Lock()
 	w.randaoReqs = append(w.randaoReqs, fmt.Sprintf("%s@%d", account.Name(), slot))
 	w.mu.Unlock()
@@ -107,7 +112,9 @@ func (w *world) SignRANDAOReveal(ctx context.Context, account e2wtypes.Account, 
 func (w *world) SignBeaconBlockProposal(ctx context.Context, account e2wtypes.Account, slot phase0.Slot, proposerIndex phase0.ValidatorIndex, parentRoot, stateRoot, bodyRoot phase0.Root) (phase0.BLSSignature, error) {
 	var sig phase0.BLSSignature
 	var err error
-	if w.fc.SignErr {
+	if ctx.Err() != nil {
+		err = ctx.Err() // a remote signer is not reached once the request's context has ended
+	} else if w.fc.SignErr {
 		err = errors.New("scripted signing failure")
 	} else {
 		sig, err = w.real.SignBeaconBlockProposal(ctx, account, slot, proposerIndex, parentRoot, stateRoot, bodyRoot)
@@ -134,14 +141,20 @@ func (w *world) ExecutionChainHead(context.Context) (phase0.Hash32, uint64) {
 	return phase0.Hash32{4, 2}, 99
 }
 
-func (w *world) Proposal(_ context.Context, opts *api.ProposalOpts) (*api.Response[*api.VersionedProposal], error) {
+func (w *world) Proposal(ctx context.Context, opts *api.ProposalOpts) (*api.Response[*api.VersionedProposal], error) {
+	if ctx.Err() != nil {
+		return nil, ctx.Err() // as an HTTP client does
+	}
 	w.mu.Lock()
 	defer w.mu.Unlock()
 	w.propReqs = append(w.propReqs, opts)
 	return &api.Response[*api.VersionedProposal]{Data: w.proposal, Metadata: map[string]any{}}, nil
 }
 
-func (w *world) SubmitProposal(_ context.Context, p *api.VersionedSignedProposal) error {
+func (w *world) SubmitProposal(ctx context.Context, p *api.VersionedSignedProposal) error {
+	if ctx.Err() != nil {
+		return ctx.Err()
+	}
 	w.mu.Lock()
 	w.submitted = append(w.submitted, p)
 	w.mu.Unlock()
@@ -151,10 +164,17 @@ func (w *world) SubmitProposal(_ context.Context, p *api.VersionedSignedProposal
 	return nil
 }
 
-func (w *world) AuctionBlock(context.Context, phase0.Slot, phase0.Hash32, phase0.BLSPubKey) (*blockauctioneer.Results, error) {
+func (w *world) AuctionBlock(ctx context.Context, _ phase0.Slot, _ phase0.Hash32, _ phase0.BLSPubKey) (*blockauctioneer.Results, error) {
 	w.mu.Lock()
 	w.auctions++
 	w.mu.Unlock()
+	if w.fc.AuctionSlow {
+		select {
+		case <-time.After(2300 * time.Millisecond):
+		case <-ctx.Done():
+			return nil, ctx.Err()
+		}
+	}
 	if w.fc.Auction == "error" {
 		return nil, errors.New("scripted auction failure")
 	}
@@ -247,6 +267,9 @@ func genCase(r *rand.Rand) *fcase {
 	if v >= spec.DataVersionBellatrix {
 		fc.Blinded = r.Intn(2) == 0
 	}
+	r2 := rand.New(rand.NewSource(r.Int63()))
+	fc.OtherIndex = r2.Intn(10) == 0
+	fc.AuctionSlow = fc.Auction != "none" && r2.Intn(40) == 0
 	if fc.Auction == "winner" || fc.Auction == "no-winner" {
 		n := 1 + r.Intn(4)
 		for i := 0; i < n; i++ {
@@ -364,7 +387,11 @@ func runCase(c *harness.Ctx, id string, fc *fcase, uniq int) {
 	if fc.OtherSlot {
 		pslot += phase0.Slot(1 + uniq%3)
 	}
-	w.proposal = harness.NewProposal(versionOf(fc.Version), fc.Blinded, pslot, w.index, uint64(uniq+1), graffiti)
+	pindex := w.index
+	if fc.OtherIndex {
+		pindex += phase0.ValidatorIndex(1 + uniq%5) // the node answers with a block built for another proposer
+	}
+	w.proposal = harness.NewProposal(versionOf(fc.Version), fc.Blinded, pslot, pindex, uint64(uniq+1), graffiti)
 
 	detail := func() map[string]any {
 		w.mu.Lock()
@@ -432,7 +459,13 @@ func runCase(c *harness.Ctx, id string, fc *fcase, uniq int) {
 	select {
 	case <-done:
 		returned = true
-	case <-time.After(2500 * time.Millisecond):
+	case <-time.After(map[bool]time.Duration{false: 2500 * time.Millisecond, true: 5 * time.Second}[fc.AuctionSlow]):
+	}
+	if fc.AuctionSlow {
+		c.Count("slow_auctions", 1)
+	}
+	if fc.OtherIndex {
+		c.Count("proposals_for_another_index", 1)
 	}
 	if !returned {
 		waitsForRelays := fc.Blinded && expectSign && !fc.SignErr && results && !canUnblind
@@ -611,7 +644,7 @@ func main() {
 	harness.Main(&harness.Spec{
 		Property:     "C05",
 		Level:        "exploration",
-		Rule:         "proposal duties over versions phase0..deneb x full/blinded x {proposal for the duty slot, for another slot} x graffiti {ok, error, no provider} x auction {no auctioneer, error, result without winner, winner with a random listed subset} x per-relay unblinding {block, 400, transient error then block, error, slow, hang} x {submission error, block signing error, unblind-from-all}; Prepare then Propose on the real proposer with the real signer. distinct = the whole assignment",
+		Rule:         "proposal duties over versions phase0..deneb x full/blinded x {proposal for the duty slot, for another slot} x graffiti {ok, error, no provider} x auction {no auctioneer, error, result without winner, winner with a random listed subset} x per-relay unblinding {block, 400, transient error then block, error, slow, hang} x {submission error, block signing error, unblind-from-all} x {block built for the duty validator, for another proposer index} x {auction answers at once, after 2.3 s}; nodes and signer refuse a request whose context has ended; Prepare then Propose on the real proposer with the real signer. distinct = the whole assignment",
 		Batches:      func(string) int { return 2 },
 		Parallel:     2,
 		Run:          run,
